@@ -1,9 +1,20 @@
-Check (C15_storage_order : forall vs as_ start vo ao,
+Open Scope N_scope.
+Check (C15_storage_order : (forall vs as_ start vo ao,
   dts_increasing vs -> pts_nondecreasing as_ ->
   walk_offsets vs as_ (compute_interleave_schedule vs as_) start = WalkOk vo ao ->
-  (forall i j oi oj si, (i < j)%nat -> nth_error vo i = Some oi -> nth_error vo j = Some oj -> nth_error vs i = Some si -> (oi + len (s_data si) <= oj)%N) /\
-  (forall i j oi oj si, (i < j)%nat -> nth_error ao i = Some oi -> nth_error ao j = Some oj -> nth_error as_ i = Some si -> (oi + len (s_data si) <= oj)%N) /\
-  (forall i j sv sa ov oa, nth_error vs i = Some sv -> nth_error as_ j = Some sa -> nth_error vo i = Some ov -> nth_error ao j = Some oa ->
-        ((s_dts sv <= s_pts sa)%N -> (ov + len (s_data sv) <= oa)%N) /\ ((s_pts sa < s_dts sv)%N -> (oa + len (s_data sa) <= ov)%N))).
-Check (C15_each_track_in_sample_order : forall vs as_, dts_increasing vs -> pts_nondecreasing as_ ->
-  filter is_video_entry (compute_interleave_schedule vs as_) = video_entries vs /\ filter is_audio_entry (compute_interleave_schedule vs as_) = audio_entries as_).
+  (forall i j oi oj si, (i < j)%nat -> nth_error vo i = Some oi -> nth_error vo j = Some oj ->
+        nth_error vs i = Some si -> oi + len (s_data si) <= oj) /\
+  (forall i j oi oj si, (i < j)%nat -> nth_error ao i = Some oi -> nth_error ao j = Some oj ->
+        nth_error as_ i = Some si -> oi + len (s_data si) <= oj) /\
+  (forall i j sv sa ov oa, nth_error vs i = Some sv -> nth_error as_ j = Some sa ->
+        nth_error vo i = Some ov -> nth_error ao j = Some oa ->
+        (s_dts sv <= s_pts sa -> ov + len (s_data sv) <= oa) /\
+        (s_pts sa < s_dts sv -> oa + len (s_data sa) <= ov)))%type).
+Check (C15_each_track_in_sample_order : (forall vs as_,
+  dts_increasing vs -> pts_nondecreasing as_ ->
+  filter is_video_entry (compute_interleave_schedule vs as_) = video_entries vs /\
+  filter is_audio_entry (compute_interleave_schedule vs as_) = audio_entries as_)%type).
+Check (C15_finished_file_storage_order : (forall b m0 ops m rs s,
+  build b [] = inl m0 -> run m0 ops = (m, rs) -> In (RStats s) rs ->
+  Forall op_payload_ok ops -> len (sink_of m) < 4294967296 ->
+  check_C15 b ops (map class_of rs) (sink_of m) = true)%type).
